@@ -1,6 +1,6 @@
 use std::cell::UnsafeCell;
 use std::ptr;
-use std::sync::atomic::{AtomicPtr, Ordering};
+use std::sync::atomic::{AtomicPtr, AtomicUsize, Ordering};
 
 use crossbeam_utils::{Backoff, CachePadded};
 
@@ -8,7 +8,8 @@ struct Node<T> {
     prev: *mut Node<T>,
     next: AtomicPtr<Node<T>>,
     value: Option<T>,
-    refs: usize,
+    // shared by the consumer and the thread that holds (and drops) the handle
+    refs: AtomicUsize,
 }
 // linked bit is MSB, ref count is 2 for handle and list
 const REF_INIT: usize = 0x1000_0002;
@@ -20,7 +21,7 @@ impl<T> Node<T> {
             prev: ptr::null_mut(),
             next: AtomicPtr::new(ptr::null_mut()),
             value: v,
-            refs: REF_INIT,
+            refs: AtomicUsize::new(REF_INIT),
         }))
     }
 }
@@ -51,7 +52,7 @@ impl<T> Entry<T> {
     #[inline]
     pub fn is_link(&self) -> bool {
         let node = unsafe { &mut *self.0.as_ptr() };
-        node.refs & !REF_COUNT_MASK != 0
+        node.refs.load(Ordering::Acquire) & !REF_COUNT_MASK != 0
     }
 
     #[inline]
@@ -76,7 +77,7 @@ impl<T> Entry<T> {
             let node = self.0.as_mut();
 
             // when the link bit is cleared, next and prev is no longer valid
-            if node.refs & !REF_COUNT_MASK == 0 {
+            if node.refs.load(Ordering::Acquire) & !REF_COUNT_MASK == 0 {
                 // already removed
                 return None;
             }
@@ -103,7 +104,7 @@ impl<T> Entry<T> {
                 #[cfg(may_verif)]
                 crate::verif::point(crate::verif::site::LIST_REMOVE_BEFORE_UNLINK, 0);
                 // clear the link bit
-                node.refs &= REF_COUNT_MASK;
+                node.refs.fetch_and(REF_COUNT_MASK, Ordering::AcqRel);
 
                 // this is not the last node, just unlink it
                 (*next).prev = prev;
@@ -114,8 +115,7 @@ impl<T> Entry<T> {
                 let ret = node.value.take();
 
                 // since self is not dropped, below is always false
-                node.refs -= 1;
-                if node.refs == 0 {
+                if node.refs.fetch_sub(1, Ordering::AcqRel) == 1 {
                     // release the node only when the ref count becomes 0
                     let _: Box<Node<T>> = Box::from_raw(node);
                 }
@@ -135,8 +135,7 @@ impl<T> Drop for Entry<T> {
     fn drop(&mut self) {
         let node = unsafe { self.0.as_mut() };
         // dec the ref count of node
-        node.refs -= 1;
-        if node.refs == 0 {
+        if node.refs.fetch_sub(1, Ordering::AcqRel) == 1 {
             // release the node
             let _: Box<Node<T>> = unsafe { Box::from_raw(node) };
         }
@@ -162,7 +161,7 @@ impl<T> Queue<T> {
     pub fn new() -> Queue<T> {
         let stub = unsafe { Node::new(None) };
         // there is no handle for the node, so it's ref should be 1 now
-        unsafe { &mut *stub }.refs = 1;
+        unsafe { &mut *stub }.refs = AtomicUsize::new(1);
         Queue {
             head: AtomicPtr::new(stub).into(),
             tail: UnsafeCell::new(stub),
@@ -257,8 +256,8 @@ impl<T> Queue<T> {
             }
 
             // clear the link bit
-            assert!((*tail).refs & REF_COUNT_MASK != 0);
-            (*tail).refs &= REF_COUNT_MASK;
+            assert!((*tail).refs.load(Ordering::Acquire) & REF_COUNT_MASK != 0);
+            (*tail).refs.fetch_and(REF_COUNT_MASK, Ordering::AcqRel);
 
             // clear the prev pointer indicate a new end point
             (*next).prev = ptr::null_mut();
@@ -267,8 +266,7 @@ impl<T> Queue<T> {
 
             // we take the next value, this is why use option to host the value
             let ret = (*next).value.take().unwrap();
-            (*tail).refs -= 1;
-            if (*tail).refs == 0 {
+            if (*tail).refs.fetch_sub(1, Ordering::AcqRel) == 1 {
                 // release the node only when the ref count becomes 0
                 let _: Box<Node<T>> = Box::from_raw(tail);
             }
@@ -288,8 +286,8 @@ impl<T> Queue<T> {
             }
 
             // clear the link bit
-            assert!((*tail).refs & REF_COUNT_MASK != 0);
-            (*tail).refs &= REF_COUNT_MASK;
+            assert!((*tail).refs.load(Ordering::Acquire) & REF_COUNT_MASK != 0);
+            (*tail).refs.fetch_and(REF_COUNT_MASK, Ordering::AcqRel);
 
             #[cfg(may_verif)]
             crate::verif::point(crate::verif::site::LIST_POP_WAIT_NEXT, self as *const _ as usize);
@@ -313,8 +311,7 @@ impl<T> Queue<T> {
             assert!((*next).value.is_some());
             // we tack the next value, this is why use option to host the value
             let ret = (*next).value.take().unwrap();
-            (*tail).refs -= 1;
-            if (*tail).refs == 0 {
+            if (*tail).refs.fetch_sub(1, Ordering::AcqRel) == 1 {
                 // release the node only when the ref count becomes 0
                 let _: Box<Node<T>> = Box::from_raw(tail);
             }
